@@ -363,7 +363,8 @@ fn set_trio(app: &mut App, owner: &Addr, factory: &Addr, trio: &Addr, t: T3, wit
     let height = app.block_info().height;
     let ramp = if extra & 1 != 0 {
         let cur = crate::mon::c04::amp_at(&crate::mon::c04::AmpCfg { a0: c.initial_amp, a1: c.future_amp, t0: c.initial_amp_block, t1: c.future_amp_block }, height);
-        let target = if cur >= 2 && height % 2 == 0 { cur / 2 } else { (cur * 2).min(1_000_000) };
+        // half of the ramps go to exactly the current amp (a no-op ramp), the others halve / double it
+        let target = if height % 4 < 2 { cur } else if cur >= 2 && height % 2 == 0 { cur / 2 } else { (cur * 2).min(1_000_000) };
         Some(tm::RampAmp { future_a: target.max(1), future_block: height + 10_000 + (height % 977) })
     } else {
         None
